@@ -2,24 +2,11 @@
 //!
 //! usage: vverif <Cxx> quick|thorough [--replay FILE] [--shard i/n --out FILE]
 
-mod daemon_fx;
-mod engine;
-mod fdtrack;
-mod feops;
-mod gen;
-mod props;
-mod rawclient;
-mod rawpeer;
-mod rec_backend;
-mod refpred;
-mod sched;
-mod spec;
-mod srv;
-mod stream;
 
 use std::process::Command;
 
-use engine::{Ctx, Tier};
+use vverif::engine::{Ctx, Tier};
+use vverif::{engine, engine_panic, props};
 
 fn usage() -> ! {
     eprintln!("usage: vverif <Cxx> quick|thorough [--replay FILE]");
@@ -38,6 +25,15 @@ fn main() {
     let args: Vec<String> = std::env::args().collect();
     if args.len() < 2 {
         usage();
+    }
+    if args[1] == "--emit-seeds" && args.len() == 4 {
+        // starting corpus of a libFuzzer target (small valid inputs)
+        let dir = std::path::Path::new(&args[3]);
+        let _ = std::fs::create_dir_all(dir);
+        for (i, b) in vverif::fuzzing::seeds(&args[2]).iter().enumerate() {
+            let _ = std::fs::write(dir.join(format!("seed-{i:03}")), b);
+        }
+        return;
     }
     if args[1] == "--list" {
         for p in props::PROPS {
@@ -263,26 +259,3 @@ fn install_panic_hook() {
     }));
 }
 
-pub use engine_panic as _ep;
-pub mod engine_panic {
-    use std::sync::Mutex;
-    pub static PANICS: Mutex<Vec<String>> = Mutex::new(Vec::new());
-    pub fn record(info: &std::panic::PanicHookInfo<'_>) {
-        let loc = info.location().map(|l| format!("{}:{}", l.file(), l.line())).unwrap_or_default();
-        let msg = if let Some(s) = info.payload().downcast_ref::<&str>() {
-            s.to_string()
-        } else if let Some(s) = info.payload().downcast_ref::<String>() {
-            s.clone()
-        } else {
-            "<non-string panic>".to_string()
-        };
-        let thread = std::thread::current().name().unwrap_or("?").to_string();
-        if let Ok(mut g) = PANICS.lock() {
-            g.push(format!("{loc}: {msg} [thread {thread}]"));
-        }
-    }
-    /// take the panics recorded since the last call
-    pub fn take() -> Vec<String> {
-        PANICS.lock().map(|mut g| std::mem::take(&mut *g)).unwrap_or_default()
-    }
-}
